@@ -12,6 +12,8 @@ Explanations::Explanations(Status* s) : status_(s) {}
 OptionalExplanations::OptionalExplanations(Explanations* e) : explanations_(e) {}
 void OptionalExplanations::Record(const void*, const char*, ...) {}
 void OptionalExplanations::ExplainDyndepLoad(const Node*) {}
+#ifndef VERIF_REAL_RUNNER
 // cut point: harnesses that reach Builder through NinjaMain install their runner here
 CommandRunner* (*verif_runner_factory)(const BuildConfig&, Jobserver::Client*) = nullptr;
 CommandRunner* CommandRunner::factory(const BuildConfig& c, Jobserver::Client* j) { if (verif_runner_factory) return verif_runner_factory(c, j); __CPROVER_assert(false, "cut: CommandRunner::factory"); return nullptr; }
+#endif
